@@ -82,6 +82,12 @@ def corpus_cpus():
     return [c for c in S.cpus() if not only or c in only.split(",")]
 
 
+def heavy(ctx, lines):
+    """batch commands (thousands of instructions per line): one shard per core whatever the number of lines, and a
+    time limit sized for a loaded machine"""
+    return nvlib.run_lines(ctx.harness, lines, timeout=3600, shards=min(nvlib.NPROC, max(1, len(lines))))
+
+
 def cpu_table(ctx):
     """[(name, bytes_per_address)] of every cpu_list entry, from the harness"""
     a = ctx.impl(["cpus"])[0]
@@ -309,16 +315,21 @@ def numbers(txt):
 
 
 def same_value(p, w):
-    """p and w are spellings of one operand value: equal, or the signed and the unsigned reading of the same k-bit
-    pattern whose top bit is set (-1 and 0xff, 0xfffffffe and -2, ...), 3 <= k <= 32"""
-    if p == w:
-        return True
-    lo, hi = min(p, w), max(p, w)
-    if lo >= 0:
-        return False
-    for k in range(3, 33):
-        if hi - lo == (1 << k) and (1 << (k - 1)) <= hi < (1 << k):
-            return True
+    """p and w are spellings of one operand value: equal after reading a value in 2^31..2^32-1 as its 32-bit two's
+    complement (0xffffffff is -1, see ASSUMPTIONS of the property modules), or the signed and the unsigned reading of
+    the same k-bit pattern whose top bit is set (-1 and 0xff, 0xfffe and -2, ...), 3 <= k <= 32"""
+    def readings(x):
+        return {x, x - (1 << 32)} if (1 << 31) <= x < (1 << 32) else {x}
+    for a in readings(p):
+        for b in readings(w):
+            if a == b:
+                return True
+            lo, hi = min(a, b), max(a, b)
+            if lo >= 0:
+                continue
+            for k in range(3, 33):
+                if hi - lo == (1 << k) and (1 << (k - 1)) <= hi < (1 << k):
+                    return True
     return False
 
 
@@ -347,50 +358,69 @@ def c06_oracle(ctx, orc):
                                 "expected": "different bytes or an error",
                                 "observed": "same bytes as the original for the literal + 2^k, k in %s" % ks,
                                 "what": "operand silently truncated", "replay_line": "asmq %s %s" % (cpu, nvlib.hexs(st))})
-    # (2) an accepted boundary value is the value that was encoded: where the listing of the original statement shows
-    # its literal, the listing of the variant shows the variant's value (or its signed/unsigned alias), and the listed
-    # text assembles to the same bytes again (a value that spills into a neighbouring field changes one of the two)
+    # (2) an accepted boundary value is the value that was encoded.  For a literal that the listing TRACKS (the
+    # listing of the original statement and of its accepted neighbours v+1, v^2 shows their values) the listing of an
+    # accepted boundary value w (w not 0 or 1: listings leave those out) must show w or its signed/unsigned alias.
+    # If it shows another value and that listing assembles to the very same bytes, the encoder gave two different
+    # operand values one encoding; if it shows no instruction at all ('???'), the value ran into the opcode bits.
+    # (A listing that assembles to OTHER bytes is a disagreement of decoder and encoder: C01's business.)
     recs = round_trip(ctx, not ctx.quick())
-    shows = {}        # (cpu, st, pos) -> the listing of the original statement shows the literal at pos
-    base_nums = {}
+
+    def listing(r):
+        return [txt for off, n_, txt in r["walk"][1]]
+
+    def shows(r, value):
+        return any(same_value(n, value) for txt in listing(r) for n in numbers(txt))
+
+    by_lit = collections.defaultdict(list)
+    base = {}
     for r in recs:
-        if r["pos"] is None and r["walk"] and r["walk"][0] == "ok":
-            base_nums[(r["cpu"], r["st"])] = [n for off, n_, txt in r["walk"][1] for n in numbers(txt)]
-    altered = collections.OrderedDict()
-    checked = 0
-    for r in recs:
-        if r["pos"] is None or r["bytes"] is None or not r["walk"] or r["walk"][0] != "ok":
+        if r["bytes"] is None or not r["walk"] or r["walk"][0] != "ok":
             continue
-        orc["cases"] += 1
-        key = (r["cpu"], r["st"], r["pos"])
-        if key not in shows:
-            m = NUM.match(r["st"], r["pos"])
-            t = m.group(1)
-            v = int(t, 16) if t.startswith("0x") else int(t)
-            shows[key] = any(same_value(n, v) for n in base_nums.get((r["cpu"], r["st"]), []))
-        why = None
-        if shows[key]:
+        if r["pos"] is None:
+            base[(r["cpu"], r["st"])] = r
+        else:
+            by_lit[(r["cpu"], r["st"], r["pos"])].append(r)
+    altered = collections.OrderedDict()
+    checked = tracked = 0
+    for key, rs in by_lit.items():
+        cpu, st, pos = key
+        b = base.get((cpu, st))
+        if b is None:
+            continue
+        m = NUM.match(st, pos)
+        t = m.group(1)
+        v = int(t, 16) if t.startswith("0x") else int(t)
+        near = [r for r in rs if r["value"] in (v + 1, v ^ 2) and r["value"] not in (0, 1)]
+        if v in (0, 1) or not shows(b, v) or not near or not all(shows(r, r["value"]) for r in near):
+            continue
+        tracked += 1
+        for r in rs:
+            w = r["value"]
+            orc["cases"] += 1
+            if w in (0, 1) or shows(r, w):
+                continue
             checked += 1
-            nums = [n for off, n_, txt in r["walk"][1] for n in numbers(txt)]
-            if not any(same_value(n, r["value"]) for n in nums):
-                why = "operand %d (0x%x) accepted, emitted %s, listed as '%s': another value" % (
-                    r["value"], r["value"] & 0xffffffff, r["bytes"].hex(),
-                    "; ".join(txt.decode("latin-1") for off, n_, txt in r["walk"][1]))
-        if why is None:
-            for off, b, txt, a in r["pieces"]:
-                if piece_verdict(b, a) == "diff":
-                    why = "operand %d accepted, emitted %s, listed as '%s', which assembles to %s" % (
-                        r["value"], b.hex(), txt.decode("latin-1"), a)
-                    break
-        if why is not None and key not in altered:
-            altered[key] = {"sig": "C06:sweep:%s:altered:%s@%d" % key, "input": ".%s / %s" % (r["cpu"], r["text"]),
-                            "expected": "the operand value is encoded exactly (listing shows it, listing re-assembles to the same bytes) or rejected",
-                            "observed": why, "what": "operand value altered by the encoder",
-                            "replay_line": "asm1 %s %x - %s" % (r["cpu"], A0, nvlib.hexs(r["text"]))}
+            texts = "; ".join(x.decode("latin-1") for x in listing(r))
+            verdicts = [piece_verdict(bb, a) for off, bb, txt, a in r["pieces"]]
+            if any((not x) or b"?" in x for x in listing(r)):
+                why = "operand %d (0x%x) accepted, emitted %s, which is listed as '%s': no instruction" % (
+                    w, w & 0xffffffff, r["bytes"].hex(), texts)
+            elif verdicts and all(x == "same" for x in verdicts):
+                why = "operand %d (0x%x) accepted, emitted %s = '%s', the encoding of another operand value" % (
+                    w, w & 0xffffffff, r["bytes"].hex(), texts)
+            else:
+                continue
+            if key not in altered:
+                altered[key] = {"sig": "C06:sweep:%s:altered:%s@%d" % key, "input": ".%s / %s" % (cpu, r["text"]),
+                                "expected": "the operand value is encoded exactly or rejected",
+                                "observed": why, "what": "operand value altered by the encoder",
+                                "replay_line": "asm1 %s %x - %s" % (cpu, A0, nvlib.hexs(r["text"]))}
     orc["failures"].extend(altered.values())
     orc["stats"]["sweep_c06"] = {"statements": len(set((m[0], m[1]) for m in meta)), "variants": len(lines),
                                  "variants_accepted": accepted, "truncations": len(hits),
-                                 "boundary_variants": len(recs), "boundary_variants_value_checked": checked,
+                                 "boundary_variants": len(recs), "literals_tracked_by_the_listing": tracked,
+                                 "boundary_values_not_shown": checked,
                                  "altered": len(altered)}
     orc["distinct_nontrivial"] = orc.get("distinct_nontrivial", 0) + accepted
 
@@ -420,8 +450,10 @@ def normalise(txt):
 
 
 def shape(txt):
-    """the instruction without its numbers: mnemonic, registers, punctuation"""
-    return b" ".join(NUMTOK.sub(b"#", txt).lower().replace(b",", b" , ").split()).decode("latin-1")
+    """failure class of an instruction text: the text with every run of digits (numbers, and the numbers inside
+    register names) replaced by '#': mnemonic, operand structure, named registers; not the register numbers"""
+    t = NUMTOK.sub(b"#", txt).lower()
+    return b" ".join(re.sub(rb"[0-9]+", b"#", t).replace(b",", b" , ").split()).decode("latin-1")
 
 
 def mnemonic(txt):
@@ -452,7 +484,7 @@ def c07_prefix_pass(ctx, orc, fails):
         sel = [c for c, b in cpus if off == 0 or MAXLEN.get(c, 0) >= 4]
         # chunk-major order: neighbouring work items belong to different CPUs (even load of the parallel shards)
         work = [(c, fr) for fr in range(0, 65536, RT_CHUNK) for c in sel]
-        ans = ctx.impl(["rtxb %s %x %s %d %d %d %d" % (c, addr, tail, fr, fr + RT_CHUNK, off, k) for c, fr in work])
+        ans = heavy(ctx, ["rtxb %s %x %s %d %d %d %d" % (c, addr, tail, fr, fr + RT_CHUNK, off, k) for c, fr in work])
         for (c, fr), a in zip(work, ans):
             if not a.startswith("n="):
                 fails.setdefault((c, "harness-died", tag), {
@@ -604,8 +636,8 @@ def disxb_all(ctx, cpus, addr, off=0, tail=TAIL, chunk=4096):
     of the chunk is counted as unexplored)"""
     res = {c: {"bad": collections.defaultdict(dict), "max": 0, "n": 0, "lens": collections.Counter(), "unexplored": 0,
                "died": []} for c, _ in cpus}
-    work = [(c, fr, fr + chunk) for c, _ in cpus for fr in range(0, 65536, chunk)]
-    ans = ctx.impl(["disxb %s %x %s %d %d %d" % (c, addr, tail, fr, to, off) for c, fr, to in work])
+    work = [(c, fr, fr + chunk) for fr in range(0, 65536, chunk) for c, _ in cpus]
+    ans = heavy(ctx, ["disxb %s %x %s %d %d %d" % (c, addr, tail, fr, to, off) for c, fr, to in work])
     for (c, fr, to), a in zip(work, ans):
         if not a.startswith("n="):
             res[c]["died"].append((fr, to, a[:160]))      # the harness itself died (not the forked worker)
